@@ -80,7 +80,7 @@ func cmdFunc(args []string) {
 		if *fnName != "" && c.Func != *fnName {
 			continue
 		}
-		if c.Abstract || c.Trusted {
+		if c.Abstract || c.Trusted || (c.Inline && *fnName == "") {
 			continue
 		}
 		t1 := time.Now()
@@ -166,9 +166,4 @@ func cmdGen(args []string) {
 		fmt.Println("// ---- ", p)
 		fmt.Println(s)
 	}
-}
-
-func cmdCheck(args []string) {
-	fmt.Println("not implemented yet")
-	os.Exit(2)
 }
